@@ -46,8 +46,8 @@ man = {
          "kind_free_text": "ExtrOcamlBasic extraction of each Model.v + a small driver reading case lines"},
         {"name": "cxx-correspondence-harness", "path": "harness/", "serves_properties": sorted(claimed),
          "kind_free_text": "C++17 harnesses compiled against /repo/include of the current tree with ASan+UBSan; same case lines as the model"},
-        {"name": "translator", "path": "tools/translate.py", "serves_properties": ["C02", "C04", "C08", "C09", "C10", "C11", "C12", "C13", "C14", "C15", "C18", "C19"],
-         "kind_free_text": "regenerates coq/Gen/*.v from /repo's working tree on every run: Constants.v (values printed by harness/gen_constants.cpp compiled against the headers), RingProto.v, QueueShape.v, PoolShape.v, ConnectShape.v, WheelShape.v and CloseShape.v (atomic accesses with memory orders / lock, wait, notify and mutation order per method / creation and registration of a pool worker / the lock, fence, connect, register, wait, close order of Transport::connectSync / the re-check of the accepting flag under the wheel mutex in TimingWheel::schedule / the guard, flag, table removal, gauge and callback order of both engines' closeNow, from clang's JSON AST); coq/Cnn/GenTie.v holds the proof obligations that tie each model to them"},
+        {"name": "translator", "path": "tools/translate.py", "serves_properties": ["C02", "C04", "C05", "C08", "C09", "C10", "C11", "C12", "C13", "C14", "C15", "C18", "C19"],
+         "kind_free_text": "regenerates coq/Gen/*.v from /repo's working tree on every run: Constants.v (values printed by harness/gen_constants.cpp compiled against the headers), RingProto.v, QueueShape.v, PoolShape.v, ConnectShape.v, WheelShape.v, CloseShape.v and TeardownShape.v (atomic accesses with memory orders / lock, wait, notify and mutation order per method / creation and registration of a pool worker / the lock, fence, connect, register, wait, close order of Transport::connectSync / the re-check of the accepting flag under the wheel mutex in TimingWheel::schedule / the guard, flag, table removal, gauge and callback order of both engines' closeNow / the fence and the three counters awaited by teardownWaitOut, from clang's JSON AST); coq/Cnn/GenTie.v holds the proof obligations that tie each model to them"},
         {"name": "orchestrator", "path": "tools/", "serves_properties": sorted(claimed),
          "kind_free_text": "check.py/vlib.py: translate, prove, correspond, decide, evidence; per-property generators in tools/props"},
     ],
